@@ -697,3 +697,12 @@ CASES.append({'name': 'ben34r4-distance-fallback-zero', 'props': ['C20'], 'expec
               'edits': [('oxmpl-js/src/base/goal.rs', '                UNKNOWN_GOAL_DISTANCE\n            },', '                0.0\n            },')]})
 CASES.append({'name': 'ben35r3-sampler-folds-the-draw', 'props': ['C14', 'C11'], 'expect': ['C14.draw'], 'patch': '/verif/selftest/benign/ben35-r3.diff',
               'edits': [('oxmpl/src/base/spaces/real_vector_state_space.rs', '        Ok(rng.random_range(lower..upper))', '        Ok(rng.random_range(lower..upper).max(0.5 * (lower + upper)))')]})
+# the C11 defect repaired in round 13 (SO3 enforce_bounds left states the bounds check rejects), re-introduced in two forms
+CASES.append({'name': 'c11-so3-projection-unchecked-reintroduced', 'props': ['C11'], 'expect': ['C11.accept'],
+              'edits': [('oxmpl/src/base/spaces/so3_state_space.rs', '            if self.satisfies_bounds(state) {\n                return;\n            }\n            t *=',
+                         '            if t <= 1.0 {\n                return;\n            }\n            t *=')]})
+CASES.append({'name': 'c11-so3-projection-grows', 'props': ['C11'], 'expect': ['C11.enforce'],
+              'edits': [('oxmpl/src/base/spaces/so3_state_space.rs', ' * (1.0 - 1e-12);', ' * (1.0 + 1e-3);')]})
+CASES.append({'name': 'benign-c11-so3-projection-tolerance', 'props': ['C11', 'C06', 'C08', 'C10'], 'expect': [],
+              'edits': [('oxmpl/src/base/spaces/so3_state_space.rs', ' * (1.0 - 1e-12);', ' * (1.0 - 1e-10);'),
+                        ('oxmpl/src/base/spaces/so3_state_space.rs', '        for _ in 0..8 {\n            self.interpolate(center_rotation', '        for _ in 0..4 {\n            self.interpolate(center_rotation')]})
